@@ -1,0 +1,142 @@
+//go:build verif
+
+package queue
+
+import (
+	"context"
+	"database/sql"
+	"sort"
+	"sync/atomic"
+	"time"
+)
+
+// VerifRow is a raw, side-effect-free view of one stored message
+// (verification builds only). Ord is the position in the memory store's
+// insertion order (first occurrence) or the SQLite rowid.
+type VerifRow struct {
+	Env Envelope
+	Ord int64
+}
+
+// VerifVolatile is the volatile throttle state of a store.
+type VerifVolatile struct {
+	LastPrune time.Time
+	LastSweep time.Time
+}
+
+// VerifDump returns every stored message without pruning, sweeping or
+// reading the clock.
+func (s *MemoryStore) VerifDump() []VerifRow {
+	s.mu.Lock()
+	defer s.mu.Unlock()
+	pos := make(map[string]int64, len(s.order))
+	for i, id := range s.order {
+		if _, ok := pos[id]; !ok {
+			pos[id] = int64(i)
+		}
+	}
+	out := make([]VerifRow, 0, len(s.items))
+	for id, env := range s.items {
+		if env == nil {
+			continue
+		}
+		cp := *env
+		if env.Payload != nil {
+			cp.Payload = append([]byte(nil), env.Payload...)
+		}
+		if env.Headers != nil {
+			cp.Headers = cloneStringMap(env.Headers)
+		}
+		if env.Trace != nil {
+			cp.Trace = cloneStringMap(env.Trace)
+		}
+		out = append(out, VerifRow{Env: cp, Ord: pos[id]})
+	}
+	sort.Slice(out, func(i, j int) bool { return out[i].Env.ID < out[j].Env.ID })
+	return out
+}
+
+// VerifLeaseIndex returns a copy of the lease index (lease id -> item id).
+func (s *MemoryStore) VerifLeaseIndex() map[string]string {
+	s.mu.Lock()
+	defer s.mu.Unlock()
+	out := make(map[string]string, len(s.leases))
+	for k, v := range s.leases {
+		out[k] = v
+	}
+	return out
+}
+
+// VerifVolatile returns the volatile throttle state.
+func (s *MemoryStore) VerifVolatile() VerifVolatile {
+	s.mu.Lock()
+	defer s.mu.Unlock()
+	return VerifVolatile{LastPrune: s.lastPrune}
+}
+
+// VerifDump returns every stored row without pruning, sweeping or reading
+// the clock.
+func (s *SQLiteStore) VerifDump() ([]VerifRow, error) {
+	rows, err := s.db.QueryContext(context.Background(), `
+SELECT rowid, id, route, target, state, received_at, attempt, next_run_at,
+  payload, headers_json, trace_json, schema_version, dead_reason, lease_id, lease_until
+FROM queue_items ORDER BY id;`)
+	if err != nil {
+		return nil, err
+	}
+	defer rows.Close()
+	out := make([]VerifRow, 0)
+	for rows.Next() {
+		var r VerifRow
+		var state string
+		var recv, next int64
+		var headersJSON, traceJSON, deadReason, leaseID sql.NullString
+		var leaseUntil sql.NullInt64
+		if err := rows.Scan(&r.Ord, &r.Env.ID, &r.Env.Route, &r.Env.Target, &state, &recv, &r.Env.Attempt, &next,
+			&r.Env.Payload, &headersJSON, &traceJSON, &r.Env.SchemaVersion, &deadReason, &leaseID, &leaseUntil); err != nil {
+			return nil, err
+		}
+		r.Env.State = State(state)
+		r.Env.ReceivedAt = time.Unix(0, recv).UTC()
+		r.Env.NextRunAt = time.Unix(0, next).UTC()
+		r.Env.Headers = unmarshalStringMap(headersJSON)
+		r.Env.Trace = unmarshalStringMap(traceJSON)
+		if deadReason.Valid {
+			r.Env.DeadReason = deadReason.String
+		}
+		if leaseID.Valid {
+			r.Env.LeaseID = leaseID.String
+		}
+		if leaseUntil.Valid {
+			r.Env.LeaseUntil = time.Unix(0, leaseUntil.Int64).UTC()
+		}
+		out = append(out, r)
+	}
+	return out, rows.Err()
+}
+
+// VerifCounters returns the queue_counters row (queued, leased).
+func (s *SQLiteStore) VerifCounters() (int, int, error) {
+	var q, l int
+	err := s.db.QueryRowContext(context.Background(), `SELECT queued, leased FROM queue_counters WHERE id = 1;`).Scan(&q, &l)
+	return q, l, err
+}
+
+// VerifPragma reads one PRAGMA value as text.
+func (s *SQLiteStore) VerifPragma(name string) (string, error) {
+	var v string
+	err := s.db.QueryRowContext(context.Background(), "PRAGMA "+name+";").Scan(&v)
+	return v, err
+}
+
+// VerifVolatile returns the volatile throttle state.
+func (s *SQLiteStore) VerifVolatile() VerifVolatile {
+	s.pruneMu.Lock()
+	lp := s.lastPrune
+	s.pruneMu.Unlock()
+	v := VerifVolatile{LastPrune: lp}
+	if n := atomic.LoadInt64(&s.lastLeaseSweepNanos); n != 0 {
+		v.LastSweep = time.Unix(0, n).UTC()
+	}
+	return v
+}
